@@ -62,6 +62,42 @@ def _api_reuse(pair):
     return second, fresh
 
 
+CRASH_DOC = "- - - - - - - - - - - - - - - - - - - - - - - - - - - - - - - - - - - - - - - - a\n"      # a known parser failure (C01)
+
+
+def _api_reuse_err(case):
+    """one API object: a first call that raises (missing path, undecodable file, parser failure, failing fix), then a scan of `b`"""
+    kind, b = case
+    from pymarkdown.api import PyMarkdownApi, PyMarkdownApiException
+
+    def fails(api, d):
+        try:
+            r = api.scan_string(d)
+            return sorted((f.line_number, f.column_number, f.rule_id, f.extra_error_information or "") for f in r.scan_failures), sorted((p.line_number, p.pragma_error) for p in r.pragma_errors)
+        except PyMarkdownApiException as e:
+            return "err", str(e)[:100]
+    with core.Scratch("pv-c13e-") as d:
+        api = PyMarkdownApi()
+        raised = False
+        try:
+            if kind == "missing-path":
+                api.scan_path(os.path.join(d, "nothing.md"))
+            elif kind == "not-utf8":
+                open(os.path.join(d, "bad.md"), "wb").write(b"# a\n\xff\xfe\n")
+                api.scan_path(os.path.join(d, "bad.md"))
+            elif kind == "crash-doc":
+                api.scan_string(CRASH_DOC)
+            elif kind == "fix-missing":
+                api.fix_path(os.path.join(d, "nothing.md"))
+            elif kind == "list-missing":
+                api.list_path(os.path.join(d, "nothing.md"))
+        except PyMarkdownApiException:
+            raised = True
+        second = fails(api, b)
+    fresh = fails(PyMarkdownApi(), b)
+    return raised, second, fresh
+
+
 def run(ctx):
     ctx.prove("Props/C13.v", ["Base/StrLit.v", "Model/History.v", "Proofs/HistoryProofs.v", "Gen/RuleFields.v"])
     pool = [d for d in dict.fromkeys(EXTRA + list(gen.POOL)) if d.strip() and "\r" not in d]
@@ -103,6 +139,12 @@ def run(ctx):
         ctx.count(1, "api-reuse")
         if second != fresh:
             ctx.violation("api-reuse", {"before": [a], "doc": b}, f"a reused PyMarkdownApi object reports {second[0][:3] if isinstance(second[0], list) else second} after another document, a fresh one {fresh[0][:3] if isinstance(fresh[0], list) else fresh}", group="api-reuse")
+    ecases = [(k, b) for k in ("missing-path", "not-utf8", "crash-doc", "fix-missing", "list-missing") for b in pool]
+    for (k, b), (raised, second, fresh) in zip(ecases, impl.pmap(_api_reuse_err, ecases, chunksize=8)):
+        ctx.count(1, "api-reuse-after-error/" + k + ("" if raised else "/first-call-did-not-raise"))
+        ctx.seen(["api-after", k, b])
+        if second != fresh:
+            ctx.violation("api-reuse", {"before": [k], "doc": b}, f"a PyMarkdownApi object whose previous call failed ({k}) reports {second[0][:3] if isinstance(second[0], list) else second}, a fresh one {fresh[0][:3] if isinstance(fresh[0], list) else fresh}", group="api-reuse-after-error")
     ctx.corr_cases += len(cases)
     ctx.trusted += [
         "translator harness/translate/rule_fields.py (syntactic: writes through aliases or helper objects stored elsewhere are not seen; method calls on helper objects count as writes unless the method name looks pure)",
@@ -110,7 +152,7 @@ def run(ctx):
     ]
     return ctx.finish(
         level="proof",
-        rule=f"pool of {len(pool)} documents (15 chosen for dense failures, pragmas, link definitions, list/heading state + the shared pool); all ordered pairs incl. a document with itself, random triples; scan and fix; all ordered pairs of a 17-document pool under a second configuration (md024 siblings_only, md004 sublist, md002 and md043 enabled); quick = 29-document pool; non-trivial = every history; distinct by (history, mode)",
+        rule=f"pool of {len(pool)} documents (15 chosen for dense failures, pragmas, link definitions, list/heading state + the shared pool); all ordered pairs incl. a document with itself, random triples; scan and fix; all ordered pairs of a 17-document pool under a second configuration (md024 siblings_only, md004 sublist, md002 and md043 enabled); a reused API object after another document and after a call that raised (missing path, undecodable file, parser failure, failing fix/list); quick = 29-document pool; non-trivial = every history; distinct by (history, mode)",
         assumptions=["the comparison of a history stops at the first file that ends the run with an application error (C15)",
                      "the eight reviewed unreset fields and everything the syntactic field analysis cannot see are covered by the histories only"],
     )
